@@ -2408,6 +2408,9 @@ def own9(units, R):
                     st['var'][d_['d']] = k_
                     if 'cJSON' in u.ty(d_['ty'])['s']:
                         st['var']['node:' + d_['n']] = k_
+                        st['fld'] = {kk: v for kk, v in st['fld'].items() if kk[0] != d_['n']}
+                        st['cleared'] = {c for c in st['cleared'] if c[0] != d_['n']}
+                        st['clear'] = {c for c in st['clear'] if c[0] != d_['n']}
                 elif u.ty(d_['ty'])['c'] == 'int':
                     c_, s_ = flag_masks(root)
                     st['imark'][d_['d']] = (c_, s_)
